@@ -20,6 +20,8 @@
 EXTENDS Bytes
 
 CONSTANT Ord(_)   \* order in which an encoder writes a property list (any order is legal)
+CONSTANT CutAt    \* -1, or: every property section is cut after its first CutAt bytes and announces exactly that
+                  \* length (hostile input: the last property loses its value or a part of it, all outer lengths agree)
 
 \* ---------------------------------------------------------------- property table
 PByte == {1, 23, 25, 36, 37, 40, 41, 42}
@@ -38,7 +40,9 @@ EncProp(id, v) ==
 
 RECURSIVE EncPropList(_)
 EncPropList(ps) == IF ps = << >> THEN << >> ELSE EncProp(Head(ps)[1], Head(ps)[2]) \o EncPropList(Tail(ps))
-EncProps(ps) == LET body == EncPropList(Ord(ps)) IN VarEnc(Len(body)) \o body
+EncProps(ps) == LET full == EncPropList(Ord(ps))
+                    body == IF CutAt >= 0 /\ CutAt < Len(full) THEN SubSeq(full, 1, CutAt) ELSE full
+                IN VarEnc(Len(body)) \o body
 
 \* read one property value
 RdPropVal(b, i, lim, id) ==
